@@ -48,6 +48,19 @@ def corrections(darsia, rng, shape, workdir):
         warnings.simplefilter("ignore")
         out.append(("curvature-zero", darsia.CurvatureCorrection(config={"bulge": dict(zero), "stretch": dict(zs)}), True, False))
         out.append(("curvature-bulge", darsia.CurvatureCorrection(config={"bulge": dict(zero, horizontal_bulge=1e-3)}), False, False))
+        # reconfigured through save / load: an object that has already corrected an image adopts the stored configuration of
+        # a correction that has never been applied; the reference for the result is a new object with that configuration
+        from pathlib import Path
+        for nm, stored, first, neutral in (("curvature-zero-loaded", {"bulge": dict(zero), "stretch": dict(zs)}, {"bulge": dict(zero, horizontal_bulge=2e-3)}, True),
+                                           ("curvature-bulge-loaded", {"bulge": dict(zero, horizontal_bulge=1e-3)}, {"bulge": dict(zero, vertical_bulge=2e-3)}, False)):
+            pz = Path(workdir) / f"cc_{rng.randrange(10**9)}.npz"
+            with contextlib.redirect_stdout(io.StringIO()):
+                darsia.CurvatureCorrection(config=copy.deepcopy(stored)).save(pz)
+                used = darsia.CurvatureCorrection(config=copy.deepcopy(first))
+                used.correct_array(np.random.RandomState(2).rand(H, W, 3))
+                used.load(pz)
+            used._verif_ref = darsia.CurvatureCorrection(config=copy.deepcopy(stored))
+            out.append((nm, used, neutral, False))
     base = np.random.RandomState(1).rand(H, W, 3)
     out.append(("drift-inactive", darsia.DriftCorrection(base, config={"active": False}), True, False))
     try:
@@ -124,7 +137,7 @@ def apply_case(darsia, name, corr, neutral, kind, overwrite, inp):
         with warnings.catch_warnings(), contextlib.redirect_stdout(io.StringIO()):
             warnings.simplefilter("ignore")
             # the reference: correction applied to (copies of) the raw array, slice by slice for series
-            fresh = copy.deepcopy(corr)
+            fresh = copy.deepcopy(getattr(corr, "_verif_ref", corr))
             if is_img and inp.series:
                 sl = [raw[..., t] if inp.scalar else raw[..., t, :] for t in range(inp.time_num)]
                 ref = np.stack([fresh.correct_array(s.copy()) for s in sl], axis=2)
